@@ -21,9 +21,12 @@
 //!   poll <i>                         poll the (i mod len)-th woken effect task
 //!   idle                             poll woken tasks in spawn order until none is left
 //! Observable: `[w=<done|absent|none> ]r=<woken effect ids> l=<id:seen;…>` (the run log of this op).
-//! Oracle (independent of the model, logical addressing by key): exactly the readers whose chain is
-//! prefix-related to a written field are woken / run, every run sees the current value of its field,
-//! immediate readers of ancestors run before those of descendants.
+//! Oracle (independent of the model; keyed items addressed by key on a plain snapshot of the store):
+//!  * after a write exactly the readers whose chain is prefix-related to a written field are woken (Effect:
+//!    appear in the ready list; ImmediateEffect: appear in the run log); for `patch` the written fields are
+//!    the fields that differ; readers of a key that has never been in the collection are not judged;
+//!  * every run logs the current value of its field (a panic or a stale/absent value fails);
+//!  * immediate readers of proper ancestors of the written field run before those of its proper descendants.
 use hx_common::*;
 use reactive_graph::{
     effect::{Effect, ImmediateEffect},
@@ -589,7 +592,7 @@ fn diff(old: &V, new: &V, at: &Chain, out: &mut Vec<Chain>) {
                             c.push(Acc::Key(key_of(x)))
                         }
                         Tag::Vec => c.push(Acc::Idx(i)),
-                        _ => c.push(Acc::Fld(i)),
+                        _ => c.push(if matches!(x, V::Node(Tag::KVec, _)) { Acc::KFld(i) } else { Acc::Fld(i) }),
                     }
                     diff(x, y, &c, out);
                 }
@@ -714,7 +717,7 @@ fn judge_write(
     {
         return "fail spurious";
     }
-    if exp.iter().any(|e| if c.readers[*e].imm { !ran.contains(e) } else { !ra.contains(e) }) {
+    if exp.iter().any(|e| !excused(e) && if c.readers[*e].imm { !ran.contains(e) } else { !ra.contains(e) }) {
         return "fail missing";
     }
     // readers of proper ancestors of the written field run before readers of its proper descendants
